@@ -27,6 +27,8 @@ type cipherPlan struct {
 	Plain *smt.Term
 	GCMOK *smt.Term
 	Key   *SliceV
+	// orchestration scenarios: the plaintext GCM Open yields (bound to a scenario tree or unparsable)
+	PlainBlob *smt.Term
 }
 
 const cipherBound = 64
@@ -135,7 +137,12 @@ func init() {
 		if !in.Branch(smt.And(smt.BVSle(smt.BV(16, 64), n), okT)) {
 			return Tuple{&SliceV{}, in.opaqueError("gcm-open")}
 		}
-		pt := in.freshBytes("gcm_plain")
+		var pt *SliceV
+		if plan != nil && plan.PlainBlob != nil {
+			pt = in.SymBytesOfStr(plan.PlainBlob)
+		} else {
+			pt = in.freshBytes("gcm_plain")
+		}
 		in.Assume(smt.Eq(pt.SB.Len, smt.BVSub(n, smt.BV(16, 64))))
 		in.Ghost["gcm.opened"] = pt
 		return Tuple{pt, nilError()}
